@@ -32,7 +32,7 @@ TITLE = "Determinant-list trials mean what they say; an exact trial gives zero v
 MENU = {"quick": 32, "thorough": 96}
 TIERS = {
     "quick": dict(runs=32 * 8, budget_s=200, recheck=2, shrink_s=90.0, run_timeout_s=1200),
-    "thorough": dict(runs=96 * 60, budget_s=2700, recheck=4, shrink_s=240.0, run_timeout_s=1800),
+    "thorough": dict(runs=96 * 60, budget_s=1200, recheck=4, shrink_s=240.0, run_timeout_s=1800),
 }
 E_TOL = 2.0e-5  # finite-difference (eps = 1e-4) local energy of the AD-based trial + float32 samples
 RULE = (
@@ -106,6 +106,10 @@ def gen_cfg(seed, index, tier):
 
 def group_of(cfg):
     return f"m{cfg['menu']:03d}"
+
+
+def group_of_index(seed, index, tier):
+    return f"m{index % MENU[tier]:03d}"
 
 
 # ------------------------------------------------------------------ list construction
